@@ -94,6 +94,10 @@ class Recorder:
         return p
 
 
+def tree_imports(src, path):
+    return [n for n in ast.parse(src, filename=path).body if isinstance(n, (ast.Import, ast.ImportFrom))]
+
+
 def load(relpath, bindings):
     """Executes REPO/relpath with its imports replaced by `bindings`.  Returns (namespace dict, dropped import lines)."""
     path = os.path.join(REPO, relpath)
@@ -110,6 +114,41 @@ def load(relpath, bindings):
     code = compile(tree, path, "exec")
     ns = dict(bindings)
     ns["__name__"] = "shadow:" + relpath
+    # The engine's bindings are keyed by the names the pinned tree uses (onp, anp, defvjp, ...).  Bind them ALSO under whatever alias the current
+    # import statements choose, identified by WHAT is imported, so that a change of import style or alias does not detach the rules from the engine.
+    MODULES = {"numpy": "onp", "numpy.linalg": "npla", "numpy.fft": "ffto", "numpy.random": "npr", "autograd.numpy.numpy_wrapper": "anp", "autograd.numpy": "anp",
+               "scipy": "sp", "scipy.special": "sps", "scipy.linalg": "spla"}
+    pkg = relpath[:-3].replace("/", ".").split(".")
+
+    def absolute(mod, level):
+        if not level:
+            return mod or ""
+        base = pkg[:-level]
+        return ".".join(base + ([mod] if mod else []))
+    for node in tree_imports(src, path):
+        if isinstance(node, ast.Import):
+            for a in node.names:
+                key = MODULES.get(a.name)
+                bound = a.asname or a.name.split(".")[0]
+                if key in bindings and bound not in ns:
+                    ns[bound] = bindings[key]
+        else:
+            mod = absolute(node.module, node.level)
+            for a in node.names:
+                bound = a.asname or a.name
+                full = (mod + "." + a.name) if mod else a.name
+                key = MODULES.get(full)
+                if bound in ns:
+                    continue
+                if key in bindings:                      # from <pkg> import <module> as X
+                    ns[bound] = bindings[key]
+                elif a.name in bindings:                 # from <any autograd module> import <symbol> as X
+                    ns[bound] = bindings[a.name]
+                elif not mod.startswith("autograd") and not mod.startswith("numpy") and not mod.startswith("scipy"):
+                    try:                                  # standard library: the real thing
+                        ns[bound] = getattr(__import__(mod, fromlist=[a.name]), a.name)
+                    except Exception:
+                        pass
     try:
         exec(code, ns)
     except NotModelled as e:
